@@ -6,6 +6,7 @@
 //! protocol on stdout is
 //!
 //! ```text
+//! P <id> <payload>      replayable payload (only when it differs from the model input)
 //! I <id> <payload>      input (fed verbatim to the Lean model driver)
 //! O <id> <output>       implementation's canonical output
 //! V <id> <class> <..>   oracle: the implementation violates the property here
@@ -141,6 +142,12 @@ pub struct Exec {
     pub nontrivial: bool,
     /// Branch / kind tags for the input-distribution report.
     pub tags: Vec<String>,
+    /// When the model needs facts only known after running the implementation
+    /// (e.g. a random challenge the server generated, verdicts of real
+    /// cryptography used as oracle inputs), the line fed to the Lean driver.
+    /// `None`: the payload itself is the model input.  The payload stays the
+    /// replayable case (printed as a `P` line).
+    pub model_input: Option<String>,
 }
 
 impl Exec {
@@ -259,8 +266,16 @@ pub fn run<P: Prop>(mut p: P) {
     let prefix = if args.cases.is_some() { "r" } else { "g" };
     for (i, payload) in payloads.iter().enumerate() {
         let id = format!("{prefix}{i}");
-        let _ = writeln!(w, "I {id} {}", clean(payload));
         let res = catch_unwind(AssertUnwindSafe(|| p.execute(payload)));
+        match &res {
+            Ok(Exec { model_input: Some(mi), .. }) => {
+                let _ = writeln!(w, "P {id} {}", clean(payload));
+                let _ = writeln!(w, "I {id} {}", clean(mi));
+            }
+            _ => {
+                let _ = writeln!(w, "I {id} {}", clean(payload));
+            }
+        }
         match res {
             Ok(ex) => {
                 let _ = writeln!(w, "O {id} {}", clean(&ex.out));
